@@ -41,6 +41,9 @@ PROBES = ("fault_in_source", "fault_in_callable", "fault_at_eos_check", "fault_i
 NAMES = TOOL_NAMES + AGG_NAMES
 
 
+NONE_SAFE = ("pairwise", "enumerate", "batched", "zip", "zip_longest", "chain", "cycle", "islice", "tee")
+
+
 class Prep:
     pass
 
@@ -54,6 +57,12 @@ def prepare(ch):
     name = NAMES[ch.draw(len(NAMES))]
     prep.is_agg = name in AGGS
     prep.spec = (AGGS if prep.is_agg else TOOLS)[name].gen(g)
+    if name in NONE_SAFE and prep.spec.srcs and ch.chance(1, 5):
+        # None as an item (first, last or anywhere): data like any other for tools that only pass items along -
+        # and the one value a tool may be tempted to use as its own "nothing there" marker
+        src = prep.spec.srcs[ch.draw(len(prep.spec.srcs))]
+        if src.items:
+            src.items[(0, len(src.items) - 1, ch.draw(len(src.items)))[ch.draw(3)]] = None
     if name == "tee":
         prep.spec.p["carry_on"] = False  # here the failure has to reach the consumer of the driver
     prep.steps = None
